@@ -46,9 +46,19 @@ def generate(rng, tier, index):
     ops.append({"op": "crash_at", "tick": int(rng.integers(0, T))})
     ops.append({"op": "reset_rerun"})
     ops.append({"op": "rerun_returned", "times": int(rng.integers(1, 3))})
+    # the same dirty restart under a gradient strategy: the first run and every re-run from the arrays it returned go through
+    # reversible_fdtd (its own re-packing of the returned container) or the checkpointed loop
+    ops.append({"op": "rerun_returned", "times": int(rng.integers(1, 3)), "strategy": specgen.choice(rng, ["reversible", "reversible", "checkpointed"]),
+                "k": int(rng.integers(0, max(1, T - 1))), "n": int(rng.integers(1, T + 1))})
     ops.append({"op": "cut_then_reset", "cut": int(rng.integers(1, T + 1))})
     order = rng.permutation(len(ops))
     spec["ops"] = [ops[i] for i in order]
+    # non-dispersive scenes are placed with a reversible gradient configuration so that the interface-recording state exists
+    # (the time-reversible method refuses dispersive media); every other operation runs with the gradient configuration removed
+    m = spec["materials"]
+    disp = any("dispersion" in (o.get("material") or {}) for o in m.get("objects", [])) or bool((m.get("background") or {}).get("dispersion"))
+    if not disp:
+        spec["gradient"] = {"method": "reversible", "recorder": []}
     return spec
 
 
@@ -86,7 +96,8 @@ def execute(spec):
     except (ValueError, NotImplementedError) as e:
         return {"rejected": True, "nontrivial": False, "stats": {"rejected": 1}, "digest": "rejected:" + type(e).__name__}
     T = scn.T
-    objs, cfg, key = scn.objects, scn.config, scn.key
+    objs, cfg_placed, key = scn.objects, scn.config, scn.key
+    cfg = cfg_placed.aset("gradient_config", None)
     arrays0 = scn.arrays
     viol = []
     stats = {"sim_steps": 0, "sim_time_fs": 0.0}
@@ -192,6 +203,21 @@ def execute(spec):
             _check_reset(r, mats0, viol, "reset")
             s2 = seg(r, 0, T)
             compare(s2, "rerun_mismatch", {"how": "reset"})
+        elif k == "rerun_returned" and op.get("strategy"):
+            strat = op["strategy"]
+            if strat == "reversible" and cfg_placed.gradient_config is None:
+                strat = "checkpointed"  # dispersive scene: placed without the interface-recording state
+            if strat == "reversible":
+                gc = cfg_placed.gradient_config.aset("num_checkpoints_reversible", min(int(op["k"]), T - 1))
+            else:
+                gc = fdtdx.GradientConfig(method="checkpointed", num_checkpoints=max(1, min(int(op["n"]), T)))
+            cfg2 = cfg.aset("gradient_config", gc)
+            arr = arrays0
+            for i in range(op.get("times", 1) + 1):
+                t2, arr = fdtdx.run_fdtd(arr, objs, cfg2, key, show_progress=False)
+                count(T)
+                fault("dirty_restart_" + strat)
+                compare((t2, arr), "rerun_mismatch", {"how": "returned_arrays_" + strat, "iteration": i})
         elif k == "rerun_returned":
             arr = ref_arr
             for i in range(op.get("times", 1)):
